@@ -127,6 +127,10 @@ func (fx *Fx) oblige(st *State, kind, site string, goal *Term, pos token.Pos) {
 		}
 		return
 	}
+	if kind != "canary" && kind != "pre-sat" && fx.impliedByAssumption(st, goal) {
+		fx.Trivial++
+		return
+	}
 	fn := st.Top().Fn
 	base := fx.Name + "#" + kind + "#" + site
 	if fn != fx.Fn {
@@ -1350,4 +1354,58 @@ func (fx *Fx) havocAll(st *State) {
 		}
 		lo.Zero = false
 	}
+}
+
+// impliedByAssumption: every conjunct of the goal is literally an earlier assumption whose guard is part of
+// the current path condition (discharged by the generator without a solver).
+func (fx *Fx) impliedByAssumption(st *State, goal *Term) bool {
+	if len(fx.Assume) == 0 {
+		return false
+	}
+	pcSet := map[*Term]bool{}
+	for _, c := range conjuncts(st.PC) {
+		pcSet[c] = true
+	}
+	have := map[*Term]bool{}
+	rew := map[*Term]*Term{}
+	for _, a := range fx.Assume {
+		t := a
+		if a.Op == "=>" {
+			ok := true
+			for _, g := range conjuncts(a.Args[0]) {
+				if !pcSet[g] {
+					ok = false
+					break
+				}
+			}
+			if !ok {
+				continue
+			}
+			t = a.Args[1]
+		}
+		for _, c := range conjuncts(t) {
+			have[c] = true
+			// unfold instances f(args) = body act as rewrite rules
+			if c.Op == "=" {
+				for k := 0; k < 2; k++ {
+					l, r := c.Args[k], c.Args[1-k]
+					if l.Op == "uf" && fx.P.Recs[l.Name] && !mentions(r, l) {
+						rew[l] = r
+					}
+				}
+			}
+		}
+	}
+	if len(rew) > 0 {
+		goal = Subst(goal, rew)
+		if goal.IsTrue() {
+			return true
+		}
+	}
+	for _, c := range conjuncts(goal) {
+		if !have[c] {
+			return false
+		}
+	}
+	return true
 }
